@@ -1023,6 +1023,7 @@ func (w *wk) runLevels() {
 		{"L3a calls: 2 arguments (full pool squared)", func() { w.callLevel(2) }},
 		{"L3b calls: keyword lists", func() { w.kwLevel() }},
 		{"L3c texts: length 3 x options {none, all}", func() { w.textLevel(3, false, []int{0, 63}) }},
+		{"L3c2 texts: 56 valid texts over every group of productions, each with every single-token deletion, duplication, swap, replacement and insertion (full alphabet) x options {none, all}", func() { w.mutationLevel([]int{0, 63}) }},
 		{"L3d nesting family: depths 101..1000 (decades and both sides of powers of two)", func() { w.nestLevel(101, 1000) }},
 		{"L4a calls: 3 arguments (sub-pool cubed)", func() { w.callLevel(3) }},
 		{"L4b graphs: 3 nodes", func() { w.graphLevel(3) }},
